@@ -924,6 +924,14 @@ static void do_remote_free_batch(State& S) {
   check_errors(S, "remote free");
 }
 
+// blocks allocated by a thread of a profile (seq_os.cpp) that has terminated: enter them into the shadow model / take them out of the foreign count before freeing
+vf::Blk* accept_foreign(State& S, void* p, size_t n) {
+  vf::Blk* b = accept_block(S, p, n, -1, 0, 0, false, EP_malloc);
+  if (b != nullptr) { S.foreign_live++; S.n_foreign++; }
+  return b;
+}
+void forget_foreign(State& S, vf::Blk* b) { if (b != nullptr && b->heap < 0) S.foreign_live--; }
+
 struct ThreadBlock { void* p; size_t n; bool zero; };
 static void do_thread_alloc_exit(State& S, std::vector<vf::Blk*>* group = nullptr) {
   size_t k = 1 + (size_t)below(S, 48);
